@@ -46,9 +46,11 @@ func c05Step(x *engine.Exec) []engine.Failure {
 					D := vs.DelShares[den]
 					sv := vs.ValShares[den]
 					switch {
-					case r.Panicked && strings.Contains(r.Err.Error(), "division by zero") && D != nil && D.Sign() > 0 && (sv == nil || sv.Sign() == 0 || vs.Tokens[den] == nil || vs.Tokens[den].Sign() == 0) && slashedCompletely(x, v):
-						// the known finding is the state after a 100% slash of THIS validator; the same shape of state reached any
-						// other way (e.g. a withdrawal wiping the validator's shares after a partial slash) is not explained by it
+					case r.Panicked && strings.Contains(r.Err.Error(), "division by zero") && D != nil && D.Sign() > 0 && (sv == nil || sv.Sign() == 0 || vs.Tokens[den] == nil || vs.Tokens[den].Sign() == 0) && (slashedCompletely(x, v) || (a.TotalTokens.IsZero() && historyHasSlash(x, v, false))):
+						// the known finding is the state after a 100% slash of THIS validator, or after a slash left a position on it
+						// worth less than the 0.01 rounder and the asset was then drained to a staked total of zero (the reset drops
+						// every validator share, the worthless delegation keeps its shares); the same shape of state reached any
+						// other way (e.g. a withdrawal wiping the validator's shares while the asset is still staked) is not explained
 						cause = "delegate-to-validator-with-delegator-shares-but-no-tokens"
 					case strings.Contains(r.Err.Error(), "insufficient funds") && strings.Contains(r.Err.Error(), "spendable") && valueChangeAfterReward(x):
 						cause = "reward-pool-short"
